@@ -12,7 +12,7 @@ CLAIMS = {
  "C01": dict(text="Full for the model: no-false-negative theorems for Bloom (bit monotonicity), cuckoo (multiset refinement, robust to failed inserts/unions and deletes of present elements), quotient (set refinement) and the list-as-set reference; union contains both operands.", design="7/C01", technique=T),
  "C02": dict(text="Full for the model: for every w,d>=1, counter maximum, hasher and non-overflowing history of add_n/merge/clear: true weight <= query_point <= stream total, add returns the new query_point, single-element streams exact, indices in range, overflow is an error never a wrap.", design="7/C02", technique=T),
  "C03": dict(text="Partial: theorems carry totality of count() on every register vector for all 15 precisions (all table indices in range over the regenerated tables), table shape/calibration facts by kernel evaluation, empty => 0; the RMS/mean/tail error bounds over hash seeds are NOT a theorem - they are checked by a sampling experiment (>=5 sigma margins) used as failing-input search.", design="7/C03, 9", technique=TS),
- "C04": dict(text="Partial: theorems carry sortedness of merged centroids, the backlog bound, the greedy k-size invariant and the centroid bound for K0 over any ordered field; the rank-error bound c*W+2/n and the delta+3 bound for K1-K3 are NOT theorems - sampling experiment only.", design="7/C04, 9", technique=TS),
+ "C04": dict(text="Partial: theorems carry sortedness of merged centroids, the backlog bound, the greedy k-size invariant, the centroid bound < delta+1 for K0 (any ordered field) and K1 (over the reals) and <= delta+3 for K2/K3 with unit weights in a range of delta, the cluster-width bound W of every scale function (K2/K3: all but the first centroid), and the rank accuracy of quantile and cdf: within 3/2*max(W,1/n) of the empirical rank interval after ONE compression pass over unit-weight data in any order (K0, K1 explicit; any scale function given the weight bound), and within 3/2 cluster weights of the centroid summary in EVERY reachable state. NOT theorems (sampling experiment only): the rank error against the data after several compression passes (the merging t-digest has no worst-case bound there), and delta+3 for K2/K3 outside the proved range.", design="7/C04, 9", technique=TS),
  "C05": dict(text="Partial beyond n=4k+1: exact uniformity P(position in reservoir)=k/n proved as a counting identity over all draw sequences for every k>=1, k<=n<=4k, and at the switch n=4k+1 (given the gap-zero fraction k/(4k+1), which the geometric-law lemma over the reals provides); skip semantics next = i+1+g. The size of the gap-sampling bias beyond 4k+1 is NOT a theorem - sampling experiment.", design="7/C05, 9", technique=TS),
  "C06": dict(text="Full for the model: merge/union equals processing both streams for Bloom, CMS, HLL (state equality; commutative, associative, idempotent where set-like), cuckoo (multiset sum when Ok) and quotient filter (set union when Ok).", design="7/C06", technique=T),
  "C07": dict(text="Partial: over the reals (same formula text as the Float code, class Transc) with_properties yields k,m >= 1 with k = max 1 floor(-log2 p), m = max 1 floor(-n ln p/ln^2 2); cuckoo sizing gives 2b/2^l <= p, n_buckets a power of two >= n/load, and for every hasher at most 2*len of the n_buckets*(2^l-1) (bucket, fingerprint) pairs answer true, hence rate <= (2/3)*load*p <= p under uniform pairs; a quotient filter answers true for exactly len of the 2^(q+r) pairs; Bloom len() envelope X/k <= len <= (X/k)(1+X/m) and X <= k*distinct. Also proved: two elements agreeing in h1 mod m and h2 mod m probe the same k positions, so one is a false positive once the other is inserted (root cause of the open known finding C07-bloom-double-hashing-floor: the Bloom rate has a floor of about n/m^2, above 1.3p for small p). NOT theorems (sampling experiment over hasher seeds instead): the Bloom 1.3p rate, cuckoo no-Full-within-n, that real hashers behave uniformly.", design="7/C07, 8, 9", technique=TS),
